@@ -1,4 +1,5 @@
 import SqlObjVerif.Lemmas.Tx
+import SqlObjVerif.Model.TxLazy
 import SqlObjVerif.Lemmas.TxXCommit
 import SqlObjVerif.Lemmas.TxWF
 /-!
@@ -508,3 +509,105 @@ example : AllIDsSpec ⟨fun _ => [2], fun _ _ c => if c = 2 then [7] else []⟩ 
 example : ConnWF (init true).p ∧ ConnWF (init true).t := ⟨ConnWF.empty, ConnWF.empty⟩
 
 end SqlObjVerif.Tx
+
+/-! ## lazyUpdate classes: pending (unsynced) assignments under a transaction (`Model/TxLazy.lean`) -/
+namespace SqlObjVerif.TxLazy
+
+def freshAnswer (row : Option Row) (c : Col) : Out :=
+  match row with
+  | some r => .val (r c)
+  | none => .notFound
+
+/-- nothing a transaction does short of `commit` — including lazy assignments and `syncUpdate` through its
+    instances — changes the committed database or the parent side -/
+theorem C07_lazy_isolation (s : St) (op : Op)
+    (h : (∃ k, op = .get .T k) ∨ (∃ j c v, op = .assign .T j c v) ∨ (∃ j, op = .sync .T j) ∨ (∃ j c, op = .read .T j c)
+      ∨ (∃ j, op = .expire .T j) ∨ op = .rollback ∨ op = .begin) :
+    (step s op).1.db = s.db ∧ (step s op).1.p = s.p := by
+  rcases h with ⟨k, rfl⟩ | ⟨j, c, v, rfl⟩ | ⟨j, rfl⟩ | ⟨j, c, rfl⟩ | ⟨j, rfl⟩ | rfl | rfl
+  · simp only [step, opGet]; (repeat' split) <;> exact ⟨rfl, rfl⟩
+  · simp only [step, opAssign]; (repeat' split) <;> exact ⟨rfl, rfl⟩
+  · simp only [step, opSync]; (repeat' split) <;> exact ⟨rfl, rfl⟩
+  · simp only [step, opRead]; (repeat' split) <;> exact ⟨rfl, rfl⟩
+  · simp only [step, opExpire]; (repeat' split) <;> exact ⟨rfl, rfl⟩
+  · simp only [step, opRollback]; (repeat' split) <;> exact ⟨rfl, rfl⟩
+  · simp only [step, opBegin]; (repeat' split) <;> exact ⟨rfl, rfl⟩
+
+/-- a lazy assignment sends nothing: neither the committed rows nor the transaction's view change -/
+theorem C07_lazy_assign_sends_nothing (s : St) (sd : Side) (j : Nat) (c : Col) (v : Val) :
+    (step s (.assign sd j c v)).1.db = s.db ∧ (step s (.assign sd j c v)).1.txv = s.txv
+    ∧ (step s (.assign sd j c v)).1.lock = s.lock := by
+  simp only [step, opAssign]
+  split
+  · exact ⟨rfl, rfl, rfl⟩
+  · cases sd <;> exact ⟨rfl, rfl, rfl⟩
+
+theorem hasPending_none (i : Inst) (n : Nat) (h : i.pending = fun _ => none) : hasPending i n = false := by
+  simp [hasPending, h]
+
+/-- **rollback erases unsynced assignments too.**  For every state with an active transaction and every
+    transaction-side instance the rollback reaches (whatever it has pending): the committed rows are untouched and the
+    transaction's view falls back to them; after `begin()` the instance has nothing pending, reads the committed
+    (pre-transaction) value of every column, its `syncUpdate()` writes nothing, and a following commit leaves the
+    database exactly as it was. -/
+theorem C07_lazy_rollback_drops_pending (s : St) (h : s.obsolete = false) (j : Nat) (hj : j < s.t.n)
+    (hr : s.t.find (s.t.insts j).key = some j) :
+    (step s .rollback).1.db = s.db ∧ (step s .rollback).1.txv = s.db
+    ∧ ((step (step s .rollback).1 .begin).1.t.insts j).pending = (fun _ => none)
+    ∧ (∀ c, (step (step (step s .rollback).1 .begin).1 (.read .T j c)).2 = freshAnswer (s.db (s.t.insts j).key) c)
+    ∧ step (step (step s .rollback).1 .begin).1 (.sync .T j) = ((step (step s .rollback).1 .begin).1, .ok)
+    ∧ (step (step (step (step s .rollback).1 .begin).1 (.sync .T j)).1 (.commit false)).1.db = s.db := by
+  have e1 : (step (step s .rollback).1 .begin).1.t.insts j = (s.t.insts j).expire := by
+    simp [step, opRollback, opBegin, h, hr]
+  have en : (step (step s .rollback).1 .begin).1.t.n = s.t.n := by simp [step, opRollback, opBegin, h]
+  have eo : (step (step s .rollback).1 .begin).1.obsolete = false := by simp [step, opRollback, opBegin, h]
+  have ev : (step (step s .rollback).1 .begin).1.txv = s.db := by simp [step, opRollback, opBegin, h]
+  have ed : (step (step s .rollback).1 .begin).1.db = s.db := by simp [step, opRollback, opBegin, h]
+  have e0 : (step s .rollback).1.db = s.db ∧ (step s .rollback).1.txv = s.db := by simp [step, opRollback, h]
+  refine ⟨e0.1, e0.2, ?_⟩
+  generalize (step (step s .rollback).1 .begin).1 = s2 at e1 en eo ev ed
+  have hlt : ¬ (j ≥ s2.t.n) := by rw [en]; omega
+  have hp : hasPending (s2.t.insts j) ncols = false := by rw [e1]; simp [hasPending, Inst.expire]
+  have hsync : step s2 (.sync .T j) = (s2, .ok) := by
+    simp [step, opSync, St.conn, hlt, hp]
+  refine ⟨by rw [e1]; rfl, ?_, hsync, ?_⟩
+  · intro c
+    have hc : (s2.t.insts j).cached c = none := by rw [e1]; rfl
+    have hk : (s2.t.insts j).key = (s.t.insts j).key := by rw [e1]; rfl
+    have hpn : (s2.t.insts j).pending = fun _ => none := by rw [e1]; rfl
+    simp only [step, opRead, St.conn, hlt, if_false, hc, eo, St.view, ev, hk]
+    cases hd : s.db (s.t.insts j).key with
+    | none => simp [freshAnswer]
+    | some row => simp [freshAnswer, overlay, hpn]
+  · rw [hsync]
+    simp [step, opCommit, eo, ev]
+
+/-- `syncUpdate()` through a transaction instance writes exactly the pending values into the transaction's view of the
+    row, nothing into the committed rows; the following commit makes them the committed values -/
+theorem C07_lazy_sync_then_commit (s : St) (h : s.obsolete = false) (j : Nat) (hj : j < s.t.n)
+    (hp : hasPending (s.t.insts j) ncols = true) :
+    (step s (.sync .T j)).2 = .ok ∧ (step s (.sync .T j)).1.db = s.db
+    ∧ (step s (.sync .T j)).1.txv (s.t.insts j).key
+        = (s.txv (s.t.insts j).key).map (fun r => overlay r (s.t.insts j).pending)
+    ∧ (∀ k, k ≠ (s.t.insts j).key → (step s (.sync .T j)).1.txv k = s.txv k)
+    ∧ ((step s (.sync .T j)).1.t.insts j).pending = (fun _ => none)
+    ∧ (step (step s (.sync .T j)).1 (.commit false)).1.db = (step s (.sync .T j)).1.txv := by
+  have hlt : ¬ (j ≥ s.t.n) := by omega
+  simp [step, opSync, St.conn, hlt, hp, h, opCommit, Conn.modify]
+  intro k hk; simp [hk]
+
+/-! ### Non-vacuity (lazy) -/
+def lrow : Row := fun c => if c = 0 then 1 else 0
+-- an unsynced assignment through the transaction, rollback, begin: the instance shows the committed value again,
+-- syncUpdate + commit change nothing
+example : outs init [.insert 1 lrow, .get .T 1, .assign .T 0 0 5, .read .T 0 0, .rollback, .begin, .read .T 0 0,
+      .sync .T 0, .commit false]
+    = [.ok, .inst 0, .ok, .val 5, .ok, .ok, .val 1, .ok, .ok] := by decide
+example : ((run init [.insert 1 lrow, .get .T 1, .assign .T 0 0 5, .rollback, .begin, .sync .T 0, .commit false]).db 1).map (· 0)
+    = some 1 := by decide
+-- synced and committed: the parent sees it only after the commit
+example : (((run init [.insert 1 lrow, .get .T 1, .assign .T 0 0 5, .sync .T 0]).db 1).map (· 0),
+           ((run init [.insert 1 lrow, .get .T 1, .assign .T 0 0 5, .sync .T 0, .commit false]).db 1).map (· 0))
+    = (some 1, some 5) := by decide
+
+end SqlObjVerif.TxLazy
